@@ -144,6 +144,8 @@ def parse_type(s):
             return ("opt", parse_type(args[0]))
         if head == "Dict":
             return ("dict", parse_type(args[0]), parse_type(args[1]))
+        if head == "DDict":  # collections.defaultdict(list)
+            return ("dict", parse_type(args[0]), parse_type(args[1]), "default")
         if head == "Tuple":
             return ("tuple", tuple(parse_type(a) for a in args))
         if head == "Obj":
@@ -311,6 +313,8 @@ def coerce(v: V, t) -> V:
         return V(t, tuple(coerce(e, ti) for e, ti in zip(v.x, t[1])))
     if k == "tuple" and v.t[0] == "list" and len(t[1]) == len(v.x):
         return V(t, tuple(coerce(e, ti) for e, ti in zip(v.x, t[1])))
+    if k == "dict" and v.t[0] == "dict" and v.x is not None and v.t[1:3] == t[1:3]:
+        return V(t, v.x)  # defaultdict viewed as a mapping (and back)
     if _compatible(v.t, t):
         return V(t, v.x)
     raise TypeError(f"cannot view {v.t} as {t}")
